@@ -156,7 +156,7 @@ func runC18(x *X) {
 			}
 			for _, l := range ol {
 				if w := length.StringCells(l); w != mc+4 {
-					x.Fail("C18.layout_emit", tags, "one-cell table of %q: line %q is %d cells wide, want %d (cell width %d + 4)\n%s", s, l, w, mc+4, out)
+					x.Fail("C18.layout_emit", tags, "one-cell table of %q: line %q is %d cells wide, want %d (cell width %d + 4)\n%s", s, l, w, mc+4, mc, out)
 					break
 				}
 			}
